@@ -205,7 +205,13 @@ func NewProofStructure(index, sign int, factor uint, bound *big.Int, splitter Sq
 		// so ensure that factor*m-bound falls into that category
 		factor *= 4
 		bound = new(big.Int).Mul(bound, big.NewInt(4)) // ensure we dont overwrite callers copy of bound
-		bound.Sub(bound, big.NewInt(2))
+		// m >= bound iff 4m >= 4*bound-2, and m <= bound iff 4m <= 4*bound+2; in both cases
+		// the difference is 2 (mod 4) and non-negative also when m equals bound.
+		if sign == -1 {
+			bound.Add(bound, big.NewInt(2))
+		} else {
+			bound.Sub(bound, big.NewInt(2))
+		}
 	}
 
 	return newWithParams(index, sign, factor, bound, splitter, splitter.SquareCount(), splitter.Ld())
@@ -454,7 +460,11 @@ func (p *Proof) ProvesStatement(sign int, factor uint, bound *big.Int) bool {
 		}
 		factor *= 4
 		bound = new(big.Int).Mul(bound, big.NewInt(4))
-		bound.Sub(bound, big.NewInt(2))
+		if sign == -1 {
+			bound.Add(bound, big.NewInt(2))
+		} else {
+			bound.Sub(bound, big.NewInt(2))
+		}
 	}
 	return p.Sign == sign && p.A == factor &&
 		(p.K.Cmp(bound) == 0 || p.K.Cmp(bound) == sign)
@@ -478,7 +488,13 @@ func (p *Proof) ProvenStatement() (StatementType, uint, *big.Int) {
 	bound := new(big.Int).Set(p.K)
 	factor := p.A
 	if len(p.Cs) == 3 {
-		bound.Add(bound, big.NewInt(2)).Rsh(bound, 2)
+		// inverse of the rescaling in NewProofStructure: 4m >= k iff m >= ceil(k/4),
+		// 4m <= k iff m <= floor(k/4)
+		if p.Sign == -1 {
+			bound.Rsh(bound, 2)
+		} else {
+			bound.Add(bound, big.NewInt(3)).Rsh(bound, 2)
+		}
 		factor >>= 2
 	}
 	var typ StatementType
